@@ -27,7 +27,9 @@ PROP = "C20"
 RULE = (
     "configurations of 2-40 simultaneously released importer processes (below and above the 16 cores), each assigned one of "
     "1-3 generated GFF3/GTF inputs (same or different; 60-400 lines), start offsets 0-20 ms, one shared TMPDIR, separate "
-    "output files, followed by 2-32 concurrent readers of one finished file. Every configuration has >= 2 processes "
+    "output files, followed by 2-32 concurrent readers of one finished file; input variants: gzip with a ##FASTA tail, GTF without "
+    "exons, shallow GFF3, inference off, and inputs with a duplicate ID whose import is expected to fail while the others are held "
+    "between writing and reading back their intermediate file. Every configuration has >= 2 processes "
     "(non-trivial); how many import pairs actually overlapped in time (monotonic-clock intervals) and how many workers met at "
     "the temp-file barrier is measured per run and reported under classes ('#...'); distinct by hash of the configuration."
 )
